@@ -329,8 +329,9 @@ func simplerVals(v ref.Val, depth int) []ref.Val {
 // features of a (minimal) failing case: the constructs known to be wrong on
 // the pinned tree, recognised from the control string and the arguments only.
 
-// Characters that cannot be given as a quoted prefix parameter on the pinned
-// tree. Found by the probe block that tries every printable ASCII character.
+// Characters that could not be given as a quoted prefix parameter on the pinned
+// tree (repaired by 2fb00e6). Found by the probe block that tries every
+// printable ASCII character.
 const brokenQuoted = "$%&()*,/:<=>?@ABCDEFGIOPRSTWX[]^abcdefgioprstwx{|}~"
 
 // a letter directly after a digit or a punctuation character: the places where
@@ -673,7 +674,11 @@ func refine(fs []string, v verdict) []string {
 var repairedConstructs = map[string]bool{
 	"nested-same-block-then-directive": true, "nested-same-block-with-param": true, "nested-iteration-closed-by-colon": true,
 	"clause-separator-then-directive": true, "tilde-with-param-in-block": true, "english-quintillion": true,
-	"princ-of-empty-string": true,
+	"princ-of-empty-string": true, "tab-colinc-0": true,
+	// round 3
+	"quoted-param-char": true, "upper-case-V": true, "plus-sign-param": true, "v-nil-on-simple-directive": true, "radix-R": true,
+	"recursive-nil-arglist": true, "conditional-bignum": true, "octet-arg": true, "non-integer-arg": true,
+	"english-lowest-group-000": true, "english-round-tens": true, "english-ordinal-hundred": true,
 }
 
 var openSet map[string]bool
